@@ -291,6 +291,7 @@ func cmdCheck(args []string) int {
 		}
 		hev = append(hev, he)
 		collectFuncs(sh, funcsEncoded)
+		dumpBlocks(sh, ps.ID+"-"+hs.Func)
 	}
 
 	// known findings: replay each witness; report those that still reproduce
@@ -414,6 +415,56 @@ func keys(m map[string]bool) []string {
 	}
 	sort.Strings(out)
 	return out
+}
+
+// dumpBlocks (development aid, BKLSYM_COVDUMP=<dir>): block-level coverage of
+// the target's functions, one JSON line per function, so that the union over
+// all properties shows code no harness reaches.
+func dumpBlocks(sh *ex.Shared, tag string) {
+	dir := os.Getenv("BKLSYM_COVDUMP")
+	if dir == "" {
+		return
+	}
+	os.MkdirAll(dir, 0o755)
+	f, err := os.OpenFile(filepath.Join(dir, tag+".jsonl"), os.O_APPEND|os.O_CREATE|os.O_WRONLY, 0o644)
+	if err != nil {
+		return
+	}
+	defer f.Close()
+	covered := map[*ssa.Function]map[int]bool{}
+	sh.Blocks.Range(func(k, _ any) bool {
+		b := k.(*ssa.BasicBlock)
+		if covered[b.Parent()] == nil {
+			covered[b.Parent()] = map[int]bool{}
+		}
+		covered[b.Parent()][b.Index] = true
+		return true
+	})
+	for fn, cs := range covered {
+		pos := sh.Fset.Position(fn.Pos())
+		file := filepath.Base(pos.Filename)
+		if strings.HasPrefix(file, "zz_verif_") || file == "" || !strings.Contains(fn.String(), "gopatchy/bkl") {
+			continue
+		}
+		type blk struct {
+			I    int `json:"i"`
+			Line int `json:"line"`
+			Cov  bool `json:"cov"`
+		}
+		var bl []blk
+		for _, b := range fn.Blocks {
+			line := 0
+			for _, in := range b.Instrs {
+				if in.Pos().IsValid() {
+					line = sh.Fset.Position(in.Pos()).Line
+					break
+				}
+			}
+			bl = append(bl, blk{b.Index, line, cs[b.Index]})
+		}
+		j, _ := json.Marshal(map[string]any{"fn": fn.String(), "file": file, "blocks": bl})
+		f.Write(append(j, '\n'))
+	}
 }
 
 func collectFuncs(sh *ex.Shared, out map[string][2]int) {
